@@ -317,6 +317,20 @@ class C01(ValProp):
         out += boundary_hist_cases(g, n // 6)
         out += slice_count_cases(g, n // 8)
         r = g.rng
+        for _ in range(n // 10):
+            # a bit list / byte list / list view whose type has ANOTHER limit (another tree depth) is stored: it is coerced
+            k_ = r.choice(['bl', 'bl', 'Bl', 'list'])
+            lim, flim = r.sample([8, 64, 256, 257, 512, 2048, 4096, 100, 200], 2)
+            ln = r.randint(0, min(lim, flim, 40))
+            if k_ == 'list':
+                et, ft = ['list', 'u64', lim], ['list', 'u64', flim]
+                xv = ['s'] + [g.val('u64', 1) for _ in range(min(ln, 12))]
+            else:
+                et, ft = [k_, lim], [k_, flim]
+                xv = g.bits(ln) if k_ == 'bl' else g.bytez(min(ln, lim, flim))
+            t, v = r.choice([(['cont', 'u8', et], ['s', '1', g.zero(et)]), (['list', et, 4], ['s', g.zero(et), g.zero(et)]), (['vec', et, 2], ['s', g.zero(et), g.zero(et)])])
+            i = 1 if t[0] == 'cont' else r.randrange(2)
+            out.append(show(['hist', t, v, ['setc', i, ft, xv], ['setc', i, ft, g.zero(et)], ['setc', i, ft, xv]]))
         for _ in range(n // 8):
             # huge limits around powers of two (chunk counts 2**k - 1, 2**k, 2**k + 1, 2**k + small), small values
             k = r.choice([40, 49, 50, 52, 53, 56, 60, 62])
@@ -1021,7 +1035,10 @@ class C10(DecProp):
             if mo.get('i.dec') == 'err':
                 # the model (proved exact) rejects: is the input the canonical encoding of what python decoded?
                 q = model_query(show(['val', case[1], parse(py['p.dec'])])) if py.get('p.dec') not in (None, 'err') else {}
-                if q.get('s.bytes') != body:
+                if q.get('wt') != '1':
+                    out.append(F('prop', 'accepted a string and returned a value that is not a value of the type (so the string is not a valid encoding)',
+                                 py.get('p.dec'), 'wt=%s' % q.get('wt')))
+                elif q.get('s.bytes') != body:
                     out.append(F('prop', 'accepted a string that is not the SSZ encoding of the decoded value',
                                  py.get('p.dec'), 'canonical encoding: %s' % q.get('s.bytes')))
                 else:
@@ -1037,8 +1054,8 @@ class C10(DecProp):
         db = py.get('p.decb')
         if db not in (None, 'err') and not is_basic(case[1]) and mo.get('i.dec') == 'err':
             q = model_query(show(['val', case[1], parse(db)])) if db != 'err' else {}
-            if q.get('s.bytes') != body:
-                out.append(F('prop', 'decode_bytes accepted a string that is not the SSZ encoding of the value it returned', db,
+            if q.get('wt') != '1' or q.get('s.bytes') != body:
+                out.append(F('prop', 'decode_bytes accepted a string that is not the SSZ encoding of a value of the type', db,
                              'canonical encoding: %s' % q.get('s.bytes')))
         return out
 
@@ -2043,6 +2060,16 @@ class C19(HistProp):
             v = g.val(t, 12)
             sg = StoreGen(g, t, v)
             out.append(show(['store', t, v] + sg.history(g.rng.choice([6, 15, 30]))))
+        # an already hashed container of another class (same layout, big field sub-trees) is stored: only the path and the
+        # container's own pairs are hashed, its field sub-trees are taken over as they are
+        for _ in range(self.n(tier) // 4):
+            e = ['cont', ['list', 'u64', 64], 'u8', ['vec', 'u16', 64], ['bl', 600]][:g.rng.choice([2, 3, 4])]
+            t = g.rng.choice([['list', e, 8], ['vec', e, 3], ['cont', 'u8', e, e]])
+            v = g.val(t, 20)
+            i = 1 if t[0] == 'cont' else 0
+            if t[0] == 'list' and len(v) < 2:
+                v = ['s', g.val(e, 20)]
+            out.append(show(['hist', t, v, ['setv', i, g.max_val(e) or g.val(e, 60)], ['setv', i, g.val(e, 60)]]))
         # mutations of views over lazily loaded backings: the untouched lazily loaded siblings stay the same objects
         r = g.rng
         for _ in range(self.n(tier) // 3):
